@@ -745,7 +745,7 @@ package jet
 //@   exsures [runtime-valid-on-panic] RtX(st)
 
 //@ func (*Runtime).executeInclude
-//@   props C09 C07 C13 C12 C15
+//@   props C09 C07 C13 C12 C15 C16
 //@   requires RtOK(st) && node != nil && WF(iface(node, "*IncludeNode"))
 //@   modifies @Interp
 //@   loop 0 invariant RtOK(st) && st.scope.parent == old(st.scope) && st.content == old(st.content) && st.escapeeWriter.Writer == old(st.escapeeWriter.Writer) && deferred(0)
@@ -755,6 +755,7 @@ package jet
 //@   callsite (*Set).getSiblingTemplate 0 requires [include-resolves-against-includer] {C15,C09} siblingPath == caller.node.TemplatePath && cacheAfterParsing
 //@   callsite (*Set).getSiblingTemplate 0 requires [include-resolves-the-name-as-written] {C15,C09} templatePath == lastret("(reflect.Value).String", 0)
 //@   callsite (*Set).getSiblingTemplate count 1
+//@   check [every-include-asks-the-set-for-the-template] {C16,C09} ncalls("(*Set).getSiblingTemplate") == 1
 //@   callsite (*Runtime).executeList 0 requires [include-renders-root-with-its-blocks] list == RootOf(lastret("(*Set).getSiblingTemplate", 0)).Root && st.scope.blocks == lastret("(*Set).getSiblingTemplate", 0).processedBlocks && st.scope.parent == old(st.scope) && (caller.node.Context == nil ==> st.context == old(st.context))
 //@   callsite (*Runtime).executeList count 1
 //@   anypanic
@@ -971,15 +972,16 @@ package jet
 //@   check [len-is-the-go-length-of-strings-and-collections] {C14} RvKind(ite(RvKind(siteret("(*Arguments).Get", 0, 0)) == 22 || RvKind(siteret("(*Arguments).Get", 0, 0)) == 20, RvElem(siteret("(*Arguments).Get", 0, 0)), siteret("(*Arguments).Get", 0, 0))) == 17 || RvKind(ite(RvKind(siteret("(*Arguments).Get", 0, 0)) == 22 || RvKind(siteret("(*Arguments).Get", 0, 0)) == 20, RvElem(siteret("(*Arguments).Get", 0, 0)), siteret("(*Arguments).Get", 0, 0))) == 18 || RvKind(ite(RvKind(siteret("(*Arguments).Get", 0, 0)) == 22 || RvKind(siteret("(*Arguments).Get", 0, 0)) == 20, RvElem(siteret("(*Arguments).Get", 0, 0)), siteret("(*Arguments).Get", 0, 0))) == 21 || RvKind(ite(RvKind(siteret("(*Arguments).Get", 0, 0)) == 22 || RvKind(siteret("(*Arguments).Get", 0, 0)) == 20, RvElem(siteret("(*Arguments).Get", 0, 0)), siteret("(*Arguments).Get", 0, 0))) == 23 || RvKind(ite(RvKind(siteret("(*Arguments).Get", 0, 0)) == 22 || RvKind(siteret("(*Arguments).Get", 0, 0)) == 20, RvElem(siteret("(*Arguments).Get", 0, 0)), siteret("(*Arguments).Get", 0, 0))) == 24 ==> RvKind(result) == 2 && RvInt(result) == RvLen(ite(RvKind(siteret("(*Arguments).Get", 0, 0)) == 22 || RvKind(siteret("(*Arguments).Get", 0, 0)) == 20, RvElem(siteret("(*Arguments).Get", 0, 0)), siteret("(*Arguments).Get", 0, 0)))
 //@   check [len-of-a-struct-is-its-number-of-fields] {C14} RvKind(ite(RvKind(siteret("(*Arguments).Get", 0, 0)) == 22 || RvKind(siteret("(*Arguments).Get", 0, 0)) == 20, RvElem(siteret("(*Arguments).Get", 0, 0)), siteret("(*Arguments).Get", 0, 0))) == 25 ==> RvKind(result) == 2 && RvInt(result) == RvNumField(ite(RvKind(siteret("(*Arguments).Get", 0, 0)) == 22 || RvKind(siteret("(*Arguments).Get", 0, 0)) == 20, RvElem(siteret("(*Arguments).Get", 0, 0)), siteret("(*Arguments).Get", 0, 0)))
 //@ func (*Arguments).ParseInto
-//@   props C18
+//@   props C18 C14
 //@   requires a != nil && RtOK(a.runtime) && WFArgs(a.args)
 //@   requires [the-caller-passes-non-nil-pointers] forall(k, 0, len(ptrs), refof(ptrs[k]) != nil)
 //@   modifies *
 //@   anypanic
-//@   loop 0 invariant 0 <= i && RtOK(a.runtime) && WFArgs(a.args) && len(ptrs) >= len(a.args.Exprs) + ite(Implicit(a), 1, 0)
-//@   callsite (*Arguments).Get 0 requires [the-i-th-pointer-receives-the-i-th-argument] {C18} argumentIndex == caller.i && caller.i < len(a.args.Exprs) + ite(Implicit(a), 1, 0) && a == caller.a
+//@   loop 0 invariant 0 <= i && RtOK(a.runtime) && WFArgs(a.args) && len(ptrs) >= len(a.args.Exprs) + ite(Implicit(a), 1, 0) && visits("(*Arguments).Get", 0) == i
+//@   callsite (*Arguments).Get 0 requires [the-i-th-pointer-receives-the-i-th-argument] {C18,C14} argumentIndex == caller.i && caller.i < len(a.args.Exprs) + ite(Implicit(a), 1, 0) && a == caller.a
 //@   callsite (*Arguments).Get count 1 {C18}
-//@   check [too-few-pointers-is-an-error] {C18} len(ptrs) < len(a.args.Exprs) + ite(Implicit(a), 1, 0) ==> result != nil
+//@   check [too-few-pointers-is-an-error] {C18,C14} len(ptrs) < len(a.args.Exprs) + ite(Implicit(a), 1, 0) ==> result != nil
+//@   check [with-enough-pointers-the-arguments-are-parsed-from-the-first-on] {C18,C14} len(ptrs) >= len(a.args.Exprs) + ite(Implicit(a), 1, 0) && len(a.args.Exprs) + ite(Implicit(a), 1, 0) >= 1 ==> visits("(*Arguments).Get", 0) >= 1
 //@ func (*Arguments).RequireNumOfArguments
 //@   props C14
 //@   requires a != nil
